@@ -50,10 +50,11 @@ def model_check(res, tier):
     if tier == "quick":
         runs = [("loop", [0, 1, 3], [0, 1, 2], 3, 6, False, 3), ("finite", [0, 1, 2], [0, 2], 2, 7, True, 3)]
     else:
-        runs = [("loop", [0, 1, 2, 3], [0, 1, 2, 3], 4, 8, False, 3), ("finite", [0, 1, 3], [0, 1, 2], 3, 9, True, 3)]
+        # (bounds chosen so that the two runs finish in about half an hour on 8 workers)
+        runs = [("loop", [0, 1, 2, 3], [0, 1, 2], 3, 8, False, 3), ("finite", [0, 1, 3], [0, 1, 2], 3, 8, True, 3)]
     for name, durs, waits, mc, mcb, fin, lenc in runs:
         st = tlc_check("MC_Playback.tla", write_cfg("Playback_%s.cfg" % name, cfg(durs, waits, mc, mcb, fin, lenc, MCINV)),
-                       workers=8, timeout=3000, tag="c03mc")
+                       workers=8, timeout=6000, tag="c03mc")
         if st["violated"]:
             res.drift.append({"model": "Playback/" + name, "violated": st["violated"]})
         res.add_mc("Playback/%s durs=%s waits=%s cmds<=%d cb<=%d" % (name, durs, waits, mc, mcb), st)
